@@ -84,7 +84,7 @@ var c10Names = []c10NameCfg{
 }
 var c10NumConns = []int{1, 2, 4}
 var c10Patterns = []string{"small", "multiframe", "manystreams", "target-closes", "banner", "server-close", "inactivity",
-	"idle", "fault", "abrupt", "pipelined", "empty-from-target", "empty-from-app"}
+	"idle", "fault", "abrupt", "pipelined", "empty-from-target", "empty-from-app", "bulk-starts"}
 
 func (s c10Scenario) sig() string {
 	n := s.Name
@@ -123,7 +123,7 @@ func c10Scenarios(rng *kit.Rng, thorough bool) []c10Scenario {
 			}
 		}
 		// singleplex and unordered sessions
-		for i, p := range []string{"small", "multiframe", "target-closes", "server-close", "inactivity", "abrupt", "empty-from-target", "empty-from-app"} {
+		for i, p := range []string{"small", "multiframe", "target-closes", "server-close", "inactivity", "abrupt", "empty-from-target", "empty-from-app", "bulk-starts"} {
 			for j, b := range c10Browsers {
 				add(b, c10Names[(i+j+round)%len(c10Names)], c10Encs[(i+j+round)%4], 0, false, p)
 				add(b, c10Names[(i+2*j+round)%len(c10Names)], c10Encs[(i+j+1+round)%4], c10NumConns[(i+j)%3], true, p)
@@ -455,6 +455,52 @@ func c10Traffic(sc c10Scenario, cs *mux.Session, sta *State, sid uint32, vn *kit
 				defer wg.Done()
 				echo(s, sizes)
 				s.Close()
+			}()
+		}
+		wg.Wait()
+	case "bulk-starts":
+		// many streams that each START with a bulk write: the first five frames of a stream are the padded ones, so
+		// this is where a frame carries the maximal payload AND up to the maximal padding (largest records of all);
+		// the echo comes back in full-size reads, so the server's first five frames per stream are of the same kind
+		n := 8
+		if sc.NumConn == 0 {
+			n = 1
+		}
+		var wg sync.WaitGroup
+		for i := 0; i < n; i++ {
+			s := open()
+			if s == nil {
+				continue
+			}
+			bulk := rng.Bytes(65536)
+			wg.Add(1)
+			go func() {
+				defer wg.Done()
+				defer s.Close()
+				if sc.Unordered {
+					for k := 0; k < 4; k++ { // datagrams of the largest size a stream accepts
+						if _, err := s.Write(bulk[:maxUnit]); err != nil {
+							out.stat("write_errors")
+							return
+						}
+					}
+					for k := 0; k < 4; k++ {
+						s.SetReadDeadline(time.Now().Add(10 * time.Second))
+						if _, err := s.Read(make([]byte, 20000)); err != nil {
+							return
+						}
+					}
+					return
+				}
+				if _, err := s.Write(bulk); err != nil {
+					out.stat("write_errors")
+					return
+				}
+				if back, err := c10ReadFull(s, len(bulk), 30*time.Second); err != nil || !bytes.Equal(back, bulk) {
+					out.stat("echo_mismatch_or_error")
+					return
+				}
+				out.stat("bulk_echo_ok")
 			}()
 		}
 		wg.Wait()
@@ -821,6 +867,10 @@ func c10RunScenario(t *testing.T, sc c10Scenario, stuck func(*c10Outcome)) *c10O
 			stuck(out)
 			return
 		}
+		out.mu.Lock()
+		out.Max["compiled_server_appDataMaxLength"] = int64(appDataMaxLength)
+		out.Max["client_session_MsgOnWireSizeLimit"] = int64(cs.MsgOnWireSizeLimit)
+		out.mu.Unlock()
 		c10Traffic(sc, cs, sta, sid, vn, rng, out)
 		synctest.Wait()
 		cs.Close()
